@@ -27,6 +27,7 @@ pub static C11: Scenario = Scenario {
         "exp: null is outside the statement (either verdict)",
         "accept-direction cases use canonical renderings only (upper-case T, Z or +-hh:mm, no leap second); exp in (r_min, r_max] is latitude",
     ],
+    exhaustive: &[],
 };
 
 pub static C12: Scenario = Scenario {
@@ -43,6 +44,7 @@ pub static C12: Scenario = Scenario {
         "the statement is silent at nbf == now: nbf in [r_min, r_max] is latitude",
         "accept-direction cases use canonical renderings only",
     ],
+    exhaustive: &[],
 };
 
 fn delta(r: &mut Rng, now: i128) -> i128 {
